@@ -18,31 +18,47 @@ ZERO = 1e-12
 PARAMS = {}          # perceval Parameters of the object under test (reset per history)
 
 
-def build_circuit(desc):
+def mk_component(kind, args):
+    """One public component of any class the property names: unitary, polarization, loss."""
     import perceval as pcvl
     import numpy as np
-    from perceval.components import BS, PS, PERM, Unitary
+    from perceval.components import BS, PS, PERM, Unitary, PR, WP, HWP, QWP, PBS, LC
     from perceval.components.unitary_components import BSConvention
+    if kind == "BS":
+        cv, th, ph = args
+        return BS(th, ph[0], ph[1], ph[2], ph[3], convention=[BSConvention.Rx, BSConvention.Ry, BSConvention.H][cv])
+    if kind == "PS":
+        return PS(args[0])
+    if kind == "PPS":      # phase shifter bound to the named parameter; its value is set when first seen
+        name, val = args
+        if name not in PARAMS:
+            PARAMS[name] = pcvl.P(name)
+            PARAMS[name].set_value(val)
+        return PS(PARAMS[name])
+    if kind == "PERM":
+        return PERM(list(args[0]))
+    if kind == "U":
+        return Unitary(pcvl.Matrix(np.array([[complex(a, b) for a, b in row] for row in args[0]], dtype=complex)))
+    if kind == "PR":
+        return PR(delta=args[0])
+    if kind == "WP":
+        return WP(delta=args[0], xsi=args[1])
+    if kind == "HWP":
+        return HWP(xsi=args[0])
+    if kind == "QWP":
+        return QWP(xsi=args[0])
+    if kind == "PBS":
+        return PBS()
+    if kind == "LC":
+        return LC(args[0])
+    raise ValueError(kind)
+
+
+def build_circuit(desc):
+    import perceval as pcvl
     c = pcvl.Circuit(desc["m"])
     for off, kind, args in desc["comps"]:
-        if kind == "BS":
-            cv, th, ph = args
-            comp = BS(th, ph[0], ph[1], ph[2], ph[3], convention=[BSConvention.Rx, BSConvention.Ry, BSConvention.H][cv])
-        elif kind == "PS":
-            comp = PS(args[0])
-        elif kind == "PPS":      # phase shifter bound to the named parameter; its value is set when first seen
-            name, val = args
-            if name not in PARAMS:
-                PARAMS[name] = pcvl.P(name)
-                PARAMS[name].set_value(val)
-            comp = PS(PARAMS[name])
-        elif kind == "PERM":
-            comp = PERM(list(args[0]))
-        elif kind == "U":
-            comp = Unitary(pcvl.Matrix(np.array([[complex(a, b) for a, b in row] for row in args[0]], dtype=complex)))
-        else:
-            raise ValueError(kind)
-        c.add(off, comp)
+        c.add(off, mk_component(kind, args))
     return c
 
 
@@ -253,7 +269,7 @@ class ProcBox:
         self.params = PARAMS
         self.p = Processor(backend, desc["m"])
         for off, kind, args in desc["comps"]:
-            self.p.add(off, build_circuit({"m": _width(kind, args), "comps": [[0, kind, args]]}))
+            self.p.add(off, mk_component(kind, args))
 
 
 def _width(kind, args):
@@ -280,13 +296,15 @@ def op_processor(box, circuits, op):
         box.params[op[1]].set_value(op[2])
     elif k == "add":
         off, kind, args = op[1]
-        p.add(off, build_circuit({"m": _width(kind, args), "comps": [[0, kind, args]]}))
+        p.add(off, mk_component(kind, args))
     elif k == "noise":
         p.noise = NoiseModel(**op[1]) if op[1] is not None else None
     elif k == "filter":
         p.min_detected_photons_filter(op[1])
     elif k == "input":
         p.with_input(mk_state(op[1]))
+    elif k == "pinput":
+        p.with_polarized_input(mk_state(op[1]))
     elif k == "postselect":
         p.set_postselection(PostSelect(op[1]))
     elif k == "clear_postselect":
